@@ -554,6 +554,254 @@ theorem T_a64_tramp (mode : Mode) (jit fake : Nat) (os : Os) (hj : jit + 20 < 18
     simp [A64.wordsToBytes, A64.tramp, a64TrampSeq, A64.trampWord, a64ScratchReg]
   rw [hm]
   simp
+
+theorem emit_ret_unfold (mode : Mode) (r : List Bool) :
+    GenA64L.emit_ret mode r = (do
+      let code_bits := (List.replicate 32 false)
+      let cur := (0 : Nat)
+      let upd ← setIdx code_bits cur false
+      let code_bits := upd
+      let t ← uadd 64 mode cur (1 : Nat)
+      let cur := t
+      let upd ← setIdx code_bits cur false
+      let code_bits := upd
+      let t ← uadd 64 mode cur (1 : Nat)
+      let cur := t
+      let upd ← setIdx code_bits cur false
+      let code_bits := upd
+      let t ← uadd 64 mode cur (1 : Nat)
+      let cur := t
+      let upd ← setIdx code_bits cur false
+      let code_bits := upd
+      let t ← uadd 64 mode cur (1 : Nat)
+      let cur := t
+      let upd ← setIdx code_bits cur false
+      let code_bits := upd
+      let t ← uadd 64 mode cur (1 : Nat)
+      let cur := t
+      let (code_bits, cur) ← forM' r (code_bits, cur) (copyStep mode)
+      let upd ← setIdx code_bits cur false
+      let code_bits := upd
+      let t ← uadd 64 mode cur (1 : Nat)
+      let cur := t
+      let upd ← setIdx code_bits cur false
+      let code_bits := upd
+      let t ← uadd 64 mode cur (1 : Nat)
+      let cur := t
+      let upd ← setIdx code_bits cur false
+      let code_bits := upd
+      let t ← uadd 64 mode cur (1 : Nat)
+      let cur := t
+      let upd ← setIdx code_bits cur false
+      let code_bits := upd
+      let t ← uadd 64 mode cur (1 : Nat)
+      let cur := t
+      let upd ← setIdx code_bits cur false
+      let code_bits := upd
+      let t ← uadd 64 mode cur (1 : Nat)
+      let cur := t
+      let upd ← setIdx code_bits cur false
+      let code_bits := upd
+      let t ← uadd 64 mode cur (1 : Nat)
+      let cur := t
+      let upd ← setIdx code_bits cur true
+      let code_bits := upd
+      let t ← uadd 64 mode cur (1 : Nat)
+      let cur := t
+      let upd ← setIdx code_bits cur true
+      let code_bits := upd
+      let t ← uadd 64 mode cur (1 : Nat)
+      let cur := t
+      let upd ← setIdx code_bits cur true
+      let code_bits := upd
+      let t ← uadd 64 mode cur (1 : Nat)
+      let cur := t
+      let upd ← setIdx code_bits cur true
+      let code_bits := upd
+      let t ← uadd 64 mode cur (1 : Nat)
+      let cur := t
+      let upd ← setIdx code_bits cur true
+      let code_bits := upd
+      let t ← uadd 64 mode cur (1 : Nat)
+      let cur := t
+      let upd ← setIdx code_bits cur false
+      let code_bits := upd
+      let t ← uadd 64 mode cur (1 : Nat)
+      let cur := t
+      let upd ← setIdx code_bits cur true
+      let code_bits := upd
+      let t ← uadd 64 mode cur (1 : Nat)
+      let cur := t
+      let upd ← setIdx code_bits cur false
+      let code_bits := upd
+      let t ← uadd 64 mode cur (1 : Nat)
+      let cur := t
+      let upd ← setIdx code_bits cur false
+      let code_bits := upd
+      let t ← uadd 64 mode cur (1 : Nat)
+      let cur := t
+      let upd ← setIdx code_bits cur true
+      let code_bits := upd
+      let t ← uadd 64 mode cur (1 : Nat)
+      let cur := t
+      let upd ← setIdx code_bits cur true
+      let code_bits := upd
+      let t ← uadd 64 mode cur (1 : Nat)
+      let cur := t
+      let upd ← setIdx code_bits cur false
+      let code_bits := upd
+      let t ← uadd 64 mode cur (1 : Nat)
+      let cur := t
+      let upd ← setIdx code_bits cur true
+      let code_bits := upd
+      let t ← uadd 64 mode cur (1 : Nat)
+      let cur := t
+      let upd ← setIdx code_bits cur false
+      let code_bits := upd
+      let t ← uadd 64 mode cur (1 : Nat)
+      let cur := t
+      let upd ← setIdx code_bits cur true
+      let code_bits := upd
+      let t ← uadd 64 mode cur (1 : Nat)
+      let cur := t
+      let upd ← setIdx code_bits cur true
+      let code_bits := upd
+      pure code_bits) := rfl
+
+/-- `emit_ret` as translated: 00000 Rn 000000 11111 0 1 0 0 1101011 (LSB first) -/
+theorem T_a64_emit_ret (mode : Mode) (r : List Bool) (hr : r.length = 5) :
+    GenA64L.emit_ret mode r = Res.ok ([false, false, false, false, false] ++ r ++ [false, false, false, false, false, false, true, true, true, true, true, false, true, false, false, true, true, false, true, false, true, true]) := by
+  rw [emit_ret_unfold]
+  dsimp only
+  have s0 : (List.replicate 32 false, (0 : Nat)) = (([] : List Bool) ++ List.replicate 32 false, ([] : List Bool).length) := rfl
+  have z0 : (List.replicate 32 false) = ([] : List Bool) ++ List.replicate 32 false := rfl
+  have z1 : (0 : Nat) = ([] : List Bool).length := rfl
+  rw [z0]
+  conv => lhs; rw [z1]
+  rw [set_fill _ _ false (by simp [hr]), Res.bind_ok]
+  rw [uadd_len mode _ false (by simp [hr]), Res.bind_ok]
+  rw [set_fill _ _ false (by simp [hr]), Res.bind_ok]
+  rw [uadd_len mode _ false (by simp [hr]), Res.bind_ok]
+  rw [set_fill _ _ false (by simp [hr]), Res.bind_ok]
+  rw [uadd_len mode _ false (by simp [hr]), Res.bind_ok]
+  rw [set_fill _ _ false (by simp [hr]), Res.bind_ok]
+  rw [uadd_len mode _ false (by simp [hr]), Res.bind_ok]
+  rw [set_fill _ _ false (by simp [hr]), Res.bind_ok]
+  rw [uadd_len mode _ false (by simp [hr]), Res.bind_ok]
+  rw [forM_fill mode _ r _ (by simp [hr]) (by simp [hr]), Res.bind_ok]
+  dsimp only
+  rw [set_fill _ _ false (by simp [hr]), Res.bind_ok]
+  rw [uadd_len mode _ false (by simp [hr]), Res.bind_ok]
+  rw [set_fill _ _ false (by simp [hr]), Res.bind_ok]
+  rw [uadd_len mode _ false (by simp [hr]), Res.bind_ok]
+  rw [set_fill _ _ false (by simp [hr]), Res.bind_ok]
+  rw [uadd_len mode _ false (by simp [hr]), Res.bind_ok]
+  rw [set_fill _ _ false (by simp [hr]), Res.bind_ok]
+  rw [uadd_len mode _ false (by simp [hr]), Res.bind_ok]
+  rw [set_fill _ _ false (by simp [hr]), Res.bind_ok]
+  rw [uadd_len mode _ false (by simp [hr]), Res.bind_ok]
+  rw [set_fill _ _ false (by simp [hr]), Res.bind_ok]
+  rw [uadd_len mode _ false (by simp [hr]), Res.bind_ok]
+  rw [set_fill _ _ true (by simp [hr]), Res.bind_ok]
+  rw [uadd_len mode _ true (by simp [hr]), Res.bind_ok]
+  rw [set_fill _ _ true (by simp [hr]), Res.bind_ok]
+  rw [uadd_len mode _ true (by simp [hr]), Res.bind_ok]
+  rw [set_fill _ _ true (by simp [hr]), Res.bind_ok]
+  rw [uadd_len mode _ true (by simp [hr]), Res.bind_ok]
+  rw [set_fill _ _ true (by simp [hr]), Res.bind_ok]
+  rw [uadd_len mode _ true (by simp [hr]), Res.bind_ok]
+  rw [set_fill _ _ true (by simp [hr]), Res.bind_ok]
+  rw [uadd_len mode _ true (by simp [hr]), Res.bind_ok]
+  rw [set_fill _ _ false (by simp [hr]), Res.bind_ok]
+  rw [uadd_len mode _ false (by simp [hr]), Res.bind_ok]
+  rw [set_fill _ _ true (by simp [hr]), Res.bind_ok]
+  rw [uadd_len mode _ true (by simp [hr]), Res.bind_ok]
+  rw [set_fill _ _ false (by simp [hr]), Res.bind_ok]
+  rw [uadd_len mode _ false (by simp [hr]), Res.bind_ok]
+  rw [set_fill _ _ false (by simp [hr]), Res.bind_ok]
+  rw [uadd_len mode _ false (by simp [hr]), Res.bind_ok]
+  rw [set_fill _ _ true (by simp [hr]), Res.bind_ok]
+  rw [uadd_len mode _ true (by simp [hr]), Res.bind_ok]
+  rw [set_fill _ _ true (by simp [hr]), Res.bind_ok]
+  rw [uadd_len mode _ true (by simp [hr]), Res.bind_ok]
+  rw [set_fill _ _ false (by simp [hr]), Res.bind_ok]
+  rw [uadd_len mode _ false (by simp [hr]), Res.bind_ok]
+  rw [set_fill _ _ true (by simp [hr]), Res.bind_ok]
+  rw [uadd_len mode _ true (by simp [hr]), Res.bind_ok]
+  rw [set_fill _ _ false (by simp [hr]), Res.bind_ok]
+  rw [uadd_len mode _ false (by simp [hr]), Res.bind_ok]
+  rw [set_fill _ _ true (by simp [hr]), Res.bind_ok]
+  rw [uadd_len mode _ true (by simp [hr]), Res.bind_ok]
+  rw [set_fill _ _ true (by simp [hr]), Res.bind_ok]
+  simp [hr, List.replicate]
+
+theorem T_a64_write_instruction (mode : Mode) (pre : List Nat) (k w : Nat) (hk : 4 ≤ k) (hl : pre.length + k < 1000) :
+    GenA64L.write_instruction mode (pre ++ List.replicate k 0) pre.length w =
+      Res.ok ((pre ++ le32 w) ++ List.replicate (k - 4) 0, (pre ++ le32 w).length) := by
+  have hu : uadd 64 mode pre.length 4 = Res.ok (pre.length + 4) := uadd64_ok _ _ _ (by omega)
+  rw [GenA64L.write_instruction]
+  dsimp only
+  rw [hu, Res.bind_ok]
+  have hc : copyInto (pre ++ List.replicate k 0) pre.length (pre.length + 4) (leBytes 4 w) =
+      Res.ok ((pre ++ le32 w) ++ List.replicate (k - 4) 0) := by
+    unfold copyInto
+    have hcnd : pre.length ≤ pre.length + 4 ∧ pre.length + 4 ≤ (pre ++ List.replicate k 0).length ∧
+        (leBytes 4 w).length = pre.length + 4 - pre.length := by
+      refine ⟨by omega, by simp; omega, ?_⟩
+      rw [leBytes4]; simp [le32]
+    rw [if_pos hcnd]
+    apply congrArg Res.ok
+    rw [leBytes4]
+    have h1 : List.take pre.length (pre ++ List.replicate k 0) = pre := by
+      rw [List.take_append]; simp
+    have h2 : List.drop (pre.length + 4) (pre ++ List.replicate k 0) = List.replicate (k - 4) 0 := by
+      rw [List.drop_append]; simp
+    rw [h1, h2]
+  rw [hc, Res.bind_ok, Res.bind_ok]
+  simp [le32]
+
+open Inj.Generated.Consts in
+/-- `generate_will_return_boolean_jit_code(jit, v)` (AArch64) as translated: the 8 bytes copied to the
+    trampoline and flushed are exactly `A64.boolStub v` — `movz x0, #v; ret x30`. -/
+theorem T_a64_boolStub (mode : Mode) (jit : Nat) (v : Bool) (os : Os) (hj : jit + 8 < 18446744073709551616) :
+    run (GenA64L.generate_will_return_boolean_jit_code mode jit v) os =
+      (Res.ok (), { os with log := os.log ++
+        [("copy_nonoverlapping", [Val.bs (A64.wordsToBytes (A64.boolStub v)), Val.n jit, Val.n 8]),
+         ("__clear_cache", [Val.n jit, Val.n ((jit + 8 : Nat) : Int)]), ("asm", [])] }) := by
+  have hv : setIdx (List.replicate 16 false) 0 v = Res.ok (v :: List.replicate 15 false) := by
+    unfold setIdx; rw [if_pos (by simp)]; rfl
+  have hz := T_a64_emit_movz mode (v :: List.replicate 15 false) true (bitsOf 0 2) (bitsOf 0 5) (by simp) (bitsOf_length _ _) (bitsOf_length _ _)
+  have hret : GenA64L.emit_ret_x30 mode = Res.ok ([false, false, false, false, false] ++ bitsOf 30 5 ++
+      [false, false, false, false, false, false, true, true, true, true, true, false, true, false, false, true, true, false, true, false, true, true]) := by
+    rw [GenA64L.emit_ret_x30, T_a64_u8_to_bits_5, Res.bind_ok, T_a64_emit_ret mode _ (bitsOf_length _ _)]
+  rw [GenA64L.generate_will_return_boolean_jit_code]
+  rw [run_bind_lift_ok _ _ _ _ hv, run_bind_lift_ok _ _ _ _ (T_a64_u8_to_bits_2 mode 0),
+      run_bind_lift_ok _ _ _ _ (T_a64_u8_to_bits_5 mode 0), run_bind_lift_ok _ _ _ _ hz, run_bind_lift_ok _ _ _ _ hret]
+  rw [run_bind_lift_ok _ _ _ _ (T_a64_bool_array_to_u32 mode _ (by simp [bitsOf_length]))]
+  have w1 := T_a64_write_instruction mode [] 8 (A64.bitsToNat (bitsOf 0 5 ++ (v :: List.replicate 15 false) ++ bitsOf 0 2 ++ [true, false, true, false, false, true] ++ [false, true] ++ [true])) (by omega) (by simp)
+  rw [show ([] : List Nat) ++ List.replicate 8 0 = List.replicate 8 0 from rfl, show ([] : List Nat).length = 0 from rfl] at w1
+  rw [run_bind_lift_ok _ _ _ _ w1]
+  dsimp only
+  rw [run_bind_lift_ok _ _ _ _ (T_a64_bool_array_to_u32 mode _ (by simp [bitsOf_length]))]
+  rw [run_bind_lift_ok _ _ _ _ (T_a64_write_instruction mode _ _ _ (by omega) (by simp [le32]))]
+  dsimp only
+  have hmz : A64.movz (if v then 2 ^ a64BoolValueBit else 0) a64BoolSf a64BoolHw a64BoolReg =
+      A64.bitsToNat (bitsOf 0 5 ++ v :: List.replicate 15 false ++ bitsOf 0 2 ++ [true, false, true, false, false, true] ++ [false, true] ++ [true]) := by
+    unfold A64.movz A64.emitWord
+    have hb : A64.natToBits (if v then 2 ^ a64BoolValueBit else 0) 16 = v :: List.replicate 15 false := by
+      cases v <;> decide
+    simp only [emitMovz, A64.emitBits, A64.srcBits, hb, a64BoolSf, a64BoolHw, a64BoolReg, natToBits_eq,
+      List.append_nil, List.append_assoc, List.cons_append, List.nil_append]
+  have hrt : A64.ret a64RetReg = A64.bitsToNat ([false, false, false, false, false] ++ bitsOf 30 5 ++
+      [false, false, false, false, false, false, true, true, true, true, true, false, true, false, false, true, true, false, true, false, true, true]) := by
+    unfold A64.ret A64.emitWord
+    simp only [emitRet, A64.emitBits, A64.srcBits, a64RetReg, natToBits_eq,
+      List.append_nil, List.append_assoc, List.cons_append, List.nil_append]
+  rw [← hmz, ← hrt]
+  have hlen : ([] ++ le32 (A64.movz (if v then 2 ^ a64BoolValueBit else 0) a64BoolSf a64BoolHw a64BoolReg) ++
+      le32 (A64.ret a64RetReg) ++ List.replicate (8 - 4 - 4) 0).length = 8 := by simp [le32]
+  rw [run_bind_ok _ _ _ _ _ (T_a64_inject mode _ jit os (by rw [hlen]; exact hj)), run_pure, hlen]
+  simp [A64.wordsToBytes, A64.boolStub]
 end Inj.Tie
 
 #print axioms Inj.Tie.T_a64_u64_to_bits
@@ -567,3 +815,6 @@ end Inj.Tie
 #print axioms Inj.Tie.T_a64_bool_array_to_u32
 #print axioms Inj.Tie.T_a64_append_instruction
 #print axioms Inj.Tie.T_a64_tramp
+#print axioms Inj.Tie.T_a64_emit_ret
+#print axioms Inj.Tie.T_a64_write_instruction
+#print axioms Inj.Tie.T_a64_boolStub
